@@ -222,8 +222,13 @@ def _rand_expr(rng, nodes, depth=0):
         pop = rng.choice([TARGET, TARGET + 1, TARGET + 2])
         return ["PP", E.plain(pop), [E.plain(v) for v in sorted(vs[:nc])], [E.plain(v) for v in sorted(vs[nc:])]]
     if r < 0.55:
-        return ["sum", [E.plain(v) for v in sorted(rng.sample(nodes, rng.randint(1, min(2, len(nodes)))))],
-                _rand_expr(rng, nodes, depth + 1)]
+        # ranges among the variables of the summand (summing a joint over a variable it does not mention is the
+        # Sum.simplify defect of C10, outside this property)
+        inner = _rand_expr(rng, nodes, depth + 1)
+        pool = sorted(FE.free_names(inner))
+        if not pool:
+            return inner
+        return ["sum", [E.plain(v) for v in sorted(rng.sample(pool, rng.randint(1, min(2, len(pool)))))], inner]
     if r < 0.8:
         return ["prod"] + [_rand_expr(rng, nodes, depth + 1) for _ in range(rng.randint(2, 3))]
     if r < 0.97:
@@ -341,10 +346,18 @@ def _families(case):
     return fams
 
 
+def _case_family(case):
+    """the family on which the two sides of an expression-valued correspondence are evaluated"""
+    if case["kind"] == "identify":
+        return FE.make_family(case["g"], case["domains"], case["eval_seed"])
+    nodes = G.all_nodes(case["g"])
+    return FE.Family(case["g"], {TARGET + 1: set(nodes), TARGET + 2: set(nodes)}, random.Random(case.get("eval_seed", 7)))
+
+
 def _sem_out(case, enc):
-    """["ok", digest of the exact values on the case's first family, structural encoding]"""
+    """["ok", digest of the exact values on the case's family, structural encoding]"""
     try:
-        fam = FE.make_family(case["g"], case["domains"], case["eval_seed"])
+        fam = _case_family(case)
         dig = _digest(fam, fam.ev(enc))
     except FE.EvalError as e:
         dig = "evalerr:" + str(e)[:60]
@@ -548,7 +561,7 @@ def _run_helper(case):
             else:
                 r = T.activate_domain_and_interventions(e, {V(z) for z in case["Z"]}, _pop(case["pop"]))
             enc = E.enc_expr(r)
-            out = ["ok", E.to_str_tree(enc)]
+            out = _sem_out(case, enc)
             if op == "activate":   # canonicalize / * / / are properties C10 / C13; here they only validate the model
                 fail = _helper_semantics(case, op, enc)
         else:
@@ -682,7 +695,7 @@ def canon_model(case, rep):
         return ["ok", C.canon_graph(body)]
     if k == "separated":
         return ["ok", body]
-    return ["ok", body]
+    return SemOut(_sem_out(case, body))
 
 
 def shrink(case):
